@@ -165,6 +165,14 @@ def install():
         pc.os = _OsProxy()
     if hasattr(pc, "threading"):
         pc.threading = _ThreadingProxy()
+    # temporary names of run-folder files carry pid and thread id too (pipefunc._utils.dump, RunInfo.dump)
+    import pipefunc._utils as pu
+    import pipefunc.map._run_info as pri
+
+    for mod in (pu, pri):
+        if hasattr(mod, "threading"):
+            mod.threading = _ThreadingProxy()
+            mod.os = _OsProxy()
     if hasattr(pf, "datetime"):
         pf.datetime = _DatetimeModule()
     _installed = True
